@@ -311,14 +311,14 @@ theorem rebuildOutdatedProducts_preserves (L : FrameL P) (k : Key) : Preserves P
   · exact preserves_bind (L.setFileState_preserves f.key .built) (L.markConsumersPending_preserves f.key) st st' hst hh
   · simp only [pure, Except.pure, Except.ok.injEq] at hh; subst hh; exact hst
 
-theorem completeSuccess_preserves (L : FrameL P) (k : Key) (hh : Nat) : Preserves P (fun s => s.completeSuccess k hh) := by
+theorem completeSuccess_preserves (L : FrameL P) (cfg : KConfig) (k : Key) (hh : Nat) : Preserves P (fun s => s.completeSuccess cfg k hh) := by
   intro s s' hp h
-  replace h : s.completeSuccess k hh = .ok s' := h
+  replace h : s.completeSuccess cfg k hh = .ok s' := h
   unfold KState.completeSuccess at h
   refine bind_ok h (fun s1 h1 => L.setStepState_preserves k .succeeded false s s1 hp h1) ?_
   intro s1 s1' hp1 hh1
   refine bind_ok hh1 (fun s2 h2 => L.rebuildOutdatedProducts_preserves k s1 s2 hp1 h2) ?_
-  exact preserves_pure _ (fun s hs => L.setHash s k hh hs)
+  exact preserves_pure _ (fun s hs => L.cacheAt _ _ _ (fun _ => rfl) (L.setHash s k hh hs))
 
 theorem markDir (L : FrameL P) (s : KState) (d : String) (hp : P s) : P (s.markDirToBeDeleted d) := by
   unfold KState.markDirToBeDeleted
